@@ -485,6 +485,8 @@ func (m *Mux) serveHTTP(w http.ResponseWriter, r *http.Request) (err error) {
 	}
 	if herr != nil {
 		if !stream.sentHeader {
+			// Header metadata set before the failure is still delivered.
+			setOutgoingHeader(w.Header(), stream.header)
 			w.Header().Set("Content-Encoding", "identity") // try to avoid gzip
 		}
 		m.encError(w, r, herr)
